@@ -118,27 +118,38 @@ func quiesce(c *sut.Cluster) (bool, bool, []sut.Digest) {
 	return false, false, ds
 }
 
-func reset(t interface{ Fatalf(string, ...any) }, c *sut.Cluster) bool {
+func reset(t interface{ Fatalf(string, ...any) }, c *sut.Cluster, leg string) bool {
 	l := c.Leader()
 	if l == nil {
 		t.Fatalf("HARNESS-ERROR: no leader")
 	}
+	flushedButKept := ""
 	for attempt := 0; attempt < 4; attempt++ {
-		l.Do("FLUSHALL")
+		_ = l.Select(0)
+		r := l.Do("FLUSHALL")
 		for _, n := range c.Nodes {
 			_ = n.Select(0)
 		}
 		ok, _, ds := quiesce(c)
 		empty := ok
-		for _, d := range ds {
+		flushedButKept = ""
+		for i, d := range ds {
 			if len(d) != 0 {
 				empty = false
+				// the leader acknowledged FLUSHALL, a marker written after it has been applied by every node, the
+				// leader is empty, and this node still holds keys
+				if ok && !r.Val.IsErr() && len(ds[0]) == 0 && i > 0 {
+					flushedButKept = fmt.Sprintf("%s still holds %s", c.Nodes[i].ID, d.Canon())
+				}
 			}
 		}
 		if empty {
 			return true
 		}
 		time.Sleep(300 * time.Millisecond) // writes forwarded by the previous case may still be arriving
+	}
+	if flushedButKept != "" && c.Nodes[0] == l {
+		failCase(t, leg, []op{{Entry: "leader", Cmd: []string{"FLUSHALL"}}}, "the leader acknowledged FLUSHALL four times and a marker written after each has reached every node, but %s", flushedButKept)
 	}
 	return false
 }
@@ -199,7 +210,7 @@ func failCase(t interface{ Fatalf(string, ...any) }, leg string, ops []op, forma
 // Leg A
 func legA(t *rapid.T, replay []op) {
 	c := getCluster(t)
-	if !reset(t, c) {
+	if !reset(t, c, "A") {
 		fmt.Println("HARNESS-ERROR: cluster did not return to an empty, converged state (inconclusive)")
 		t.Skip()
 	}
@@ -262,7 +273,7 @@ func render(ops []op) []string {
 // Leg B
 func legB(t *rapid.T, replay []op) {
 	c := getCluster(t)
-	if !reset(t, c) {
+	if !reset(t, c, "B") {
 		fmt.Println("HARNESS-ERROR: cluster did not return to an empty, converged state (inconclusive)")
 		t.Skip()
 	}
@@ -541,7 +552,7 @@ func TestLegDLateJoiner(t *testing.T) {
 	}
 	defer common.Verdict(t, rec, "D")
 	c := getCluster(t)
-	if !reset(t, c) {
+	if !reset(t, c, "D") {
 		fmt.Println("HARNESS-ERROR: cluster did not return to an empty, converged state (inconclusive)")
 		return
 	}
